@@ -166,6 +166,7 @@ OPS_UN = {
     'floor': 'lambda A: np.floor(A)', 'ceil': 'lambda A: np.ceil(A)', 'round': 'lambda A: np.round(A)', 'sum': 'lambda A: np.sum(A)',
     'value_other_unit': 'lambda A: A.value(ALT)', 'mul_number': 'lambda A: A * 3', 'rmul_number': 'lambda A: 3 * A', 'rdiv_number': 'lambda A: 3 / A',
     'arcsin': 'lambda A: np.arcsin(A)', 'arccos': 'lambda A: np.arccos(A)', 'arctan': 'lambda A: np.arctan(A)', 'cbrt': 'lambda A: np.cbrt(A)',
+    'radd_zero': 'lambda A: 0 + A', 'radd_zero_float': 'lambda A: 0.0 + A', 'rsub_zero': 'lambda A: 0 - A', 'builtin_sum': 'lambda A: sum([A])', 'add_zero': 'lambda A: A + 0', 'mul_one': 'lambda A: 1 * A', 'div_one': 'lambda A: A / 1',
     'getitem': 'lambda A: A[0]', 'units': 'lambda A: A.units()', 'str': 'lambda A: str(A.baseunits)', 'power': 'lambda A: np.power(A, 2)',
 }
 # (left unit, right unit, unit to convert result to, other unit for left, other unit for right)
@@ -212,7 +213,7 @@ def scenarios(tier, seed):
         for pname, (ua, ub, ur, ua2, ub2) in list(PAIRS.items()) + [('ratio', RATIO)]:
             if op in ('sin', 'cos', 'tan') and pname != 'angle':
                 continue
-            if op in ('arcsin', 'arccos', 'arctan'):
+            if op in ('arcsin', 'arccos', 'arctan', 'radd_zero', 'radd_zero_float', 'rsub_zero', 'builtin_sum', 'add_zero'):
                 if pname != 'ratio':
                     continue       # inverse trigonometric functions take a dimensionless argument, here written in % 
             elif pname == 'ratio':
